@@ -34,6 +34,18 @@ def fs_jobs(names, cases, maxlen, stds=('17',)):
     return jobs
 
 
+def ss_unit(name, std='17'):
+    d = dict(NONSTD)
+    d.update(C.SS_DEFS[name])
+    uname = name if std == '17' else '%s_cxx%s' % (name, std)
+    d['VF_NAME'] = '"%s"' % uname
+    return D.Unit(uname, 'targets/smallset_main.cpp', d, std=std, kind='asan', engine=True)
+
+
+def ss_jobs(names, cases, maxlen, stds=('17',)):
+    return [{'unit': ss_unit(n, s), 'cases': cases, 'maxlen': maxlen} for n in names for s in stds]
+
+
 def budget(tier, quick, thorough):
     return thorough if tier == 'thorough' else quick
 
@@ -140,6 +152,8 @@ def check_C02(tier, seed, t0):
     jobs = vec_jobs(names, cases, maxlen) + vec_jobs(C.VEC_MULTISTD, cases, maxlen, stds=('11', '14', '20'))
     parts = [interp_part('C02', 'vector_histories', jobs, seed, VEC_RULES['C02'], True)]
     fsn = [n for n, _ in C.FS_CONFIGS if '_i32' not in n]
+    parts.append(interp_part('C02', 'smallset_histories', ss_jobs([n for n, _ in C.SS_CONFIGS if '_i32' not in n], cases, maxlen), seed,
+                             'SmallSet tapes with identity-tracking elements; non-trivial = >=5 mutating ops crossing the N boundary', True))
     parts.append(interp_part('C02', 'flatset_histories', fs_jobs(fsn, cases, maxlen) + fs_jobs(C.FS_MULTISTD, cases, maxlen, stds=('11', '14', '20')), seed,
                              'FlatSet tapes with identity-tracking elements; non-trivial = >=5 mutating ops incl. bulk insert/merge/hint/node/erase-range/hand-over', True))
     return finish('C02', tier, seed, 'exploration', parts, VEC_RULES['C02'], ASSUME_COMMON, t0)
@@ -149,6 +163,10 @@ def check_C05(tier, seed, t0):
     cases, maxlen = budget(tier, (30000, 60), (400000, 80))
     names = C.vec_subset(lambda n: C.is_sv(n) or C.is_fcv(n))
     parts = [interp_part('C05', 'vector_histories', vec_jobs(names, cases, maxlen), seed, VEC_RULES['C05'], False)]
+    parts.append(interp_part('C05', 'smallset_histories', ss_jobs([n for n, _ in C.SS_CONFIGS], cases, maxlen), seed,
+                             'SmallSet tapes with merges/copies/swaps weighted up; per-set flag "never held more than N" (inherited through copy/move/swap, '
+                             'cleared by merging with a set that lost it); oracle: zero allocator requests and zero malloc/new in every op window whose '
+                             'operands all carry the flag, elements inside the object; non-trivial = >=4 mutating ops with a merge and no set ever exceeding N', False))
     return finish('C05', tier, seed, 'exploration', parts, VEC_RULES['C05'],
                   ASSUME_COMMON + ['malloc/new are counted through __sanitizer_install_malloc_and_free_hooks inside op windows'], t0)
 
@@ -158,6 +176,8 @@ def check_C06(tier, seed, t0):
     names = C.vec_subset(lambda n: not C.is_fcv(n))
     parts = [interp_part('C06', 'vector_histories', vec_jobs(names, cases, maxlen), seed, VEC_RULES['C06'], False)]
     fsn = [n for n, _ in C.FS_CONFIGS if 'fcv24' not in n and 'real' not in n]
+    parts.append(interp_part('C06', 'smallset_histories', ss_jobs([n for n, _ in C.SS_CONFIGS if 'real' not in n], cases, maxlen), seed,
+                             'SmallSet tapes on ledger allocators (std::set nodes and FlatSet buffers); non-trivial = >=5 mutating ops crossing the N boundary', False))
     parts.append(interp_part('C06', 'flatset_histories', fs_jobs(fsn, cases, maxlen), seed,
                              'FlatSet tapes on ledger allocators; non-trivial = >=5 mutating ops with a vector hand-over (FlatSet(vector&&), operator=(vector&&), steal_vector) or a range longer than 16', False))
     return finish('C06', tier, seed, 'exploration', parts, VEC_RULES['C06'], ASSUME_COMMON + ['all allocator instances compare equal'], t0)
@@ -205,6 +225,8 @@ def check_C14(tier, seed, t0):
     names = C.vec_subset(lambda n: n.startswith('vec_') or '_ntr' not in n and '_mo' not in n)
     parts = [interp_part('C14', 'vector_histories', vec_jobs(names, cases, maxlen), seed, VEC_RULES['C14'], True, crash_class_codes=[47])]
     fsn = [n for n, _ in C.FS_CONFIGS if 'stdvec' not in n and not ('_ntr' in n and ('sv4' in n or 'fcv24' in n)) and not ('_mo' in n and 'sv4' in n)]
+    parts.append(interp_part('C14', 'smallset_histories', ss_jobs([n for n, _ in C.SS_CONFIGS if 'flat' in n and '_ntr' not in n and '_mo' not in n], cases, maxlen), seed,
+                             'FlatSet-backed SmallSet tapes with RELOCATE; non-trivial = relocation followed by >=3 mutating ops', True, crash_class_codes=[28]))
     parts.append(interp_part('C14', 'flatset_histories', fs_jobs(fsn, cases, maxlen), seed,
                              'FlatSet tapes with RELOCATE; non-trivial = relocation followed by >=3 mutating ops', True, crash_class_codes=[29]))
     return finish('C14', tier, seed, 'exploration', parts, VEC_RULES['C14'], ASSUME_COMMON, t0)
@@ -221,7 +243,29 @@ def check_C03(tier, seed, t0):
     return finish('C03', tier, seed, 'exploration', parts, FS_RULE, ASSUME_COMMON, t0)
 
 
-CHECKS = {'C03': check_C03, 'C08': check_C08, 'C10': check_C10, 'C13': check_C13, 'C14': check_C14, 'C01': check_C01, 'C02': check_C02, 'C05': check_C05, 'C06': check_C06, 'C07': check_C07}
+SS_RULE4 = ('random op tapes (31 op codes over a pool of 3 SmallSets + 2 sets of a sibling type with another N and comparator, keys from a 16-value '
+            'domain) against std::set<int,ModelCmp>, contents compared as sets, membership of every key of the domain checked after every op; '
+            'non-trivial = >=3 mutating ops and the history crosses the N boundary or merges/compares/assigns sets in different states; distinct = trace hash')
+SS_RULE11 = ('the same tapes with erase(pos)/erase(range)/erase-while-iterating loops weighted up; after every op begin()->end() and rbegin()->rend() '
+             'must visit exactly the model elements once, returned iterators must equal end() iff they designate nothing; non-trivial = >=3 '
+             'mutating ops with the set in large state or changing state inside a call; distinct = trace hash')
+
+
+def check_C04(tier, seed, t0):
+    cases, maxlen = budget(tier, (30000, 60), (400000, 80))
+    names = [n for n, _ in C.SS_CONFIGS]
+    parts = [interp_part('C04', 'smallset_histories', ss_jobs(names, cases, maxlen) + ss_jobs(names[:4], cases, maxlen, stds=('20',)), seed, SS_RULE4, True)]
+    return finish('C04', tier, seed, 'exploration', parts, SS_RULE4, ASSUME_COMMON, t0)
+
+
+def check_C11(tier, seed, t0):
+    cases, maxlen = budget(tier, (30000, 60), (400000, 80))
+    names = [n for n, _ in C.SS_CONFIGS]
+    parts = [interp_part('C11', 'smallset_histories', ss_jobs(names, cases, maxlen) + ss_jobs(names[:4], cases, maxlen, stds=('20',)), seed, SS_RULE11, True)]
+    return finish('C11', tier, seed, 'exploration', parts, SS_RULE11, ASSUME_COMMON, t0)
+
+
+CHECKS = {'C03': check_C03, 'C04': check_C04, 'C11': check_C11, 'C08': check_C08, 'C10': check_C10, 'C13': check_C13, 'C14': check_C14, 'C01': check_C01, 'C02': check_C02, 'C05': check_C05, 'C06': check_C06, 'C07': check_C07}
 
 
 def all_units():
@@ -229,6 +273,7 @@ def all_units():
     for s in ('11', '14', '20'):
         us += [vec_unit(n, s) for n in C.VEC_MULTISTD]
     us += [fs_unit(n) for n, _ in C.FS_CONFIGS]
+    us += [ss_unit(n) for n, _ in C.SS_CONFIGS] + [ss_unit(n, '20') for n, _ in C.SS_CONFIGS[:4]]
     for s in ('11', '14', '20'):
         us += [fs_unit(n, s) for n in C.FS_MULTISTD]
     return us
